@@ -717,28 +717,28 @@ class SymNum:
         return SymNum(z3.If(self.t >= 0, self.t, -self.t), self.kind)
 
     def __truediv__(self, o):
-        return div(self, o)
+        return NotImplemented if _not_scalar(o) else div(self, o)
 
     def __rtruediv__(self, o):
-        return div(o, self)
+        return NotImplemented if _not_scalar(o) else div(o, self)
 
     def __floordiv__(self, o):
-        return floordiv(self, o)
+        return NotImplemented if _not_scalar(o) else floordiv(self, o)
 
     def __rfloordiv__(self, o):
-        return floordiv(o, self)
+        return NotImplemented if _not_scalar(o) else floordiv(o, self)
 
     def __mod__(self, o):
-        return mod(self, o)
+        return NotImplemented if _not_scalar(o) else mod(self, o)
 
     def __rmod__(self, o):
-        return mod(o, self)
+        return NotImplemented if _not_scalar(o) else mod(o, self)
 
     def __pow__(self, o):
-        return power(self, o)
+        return NotImplemented if _not_scalar(o) else power(self, o)
 
     def __rpow__(self, o):
-        return power(o, self)
+        return NotImplemented if _not_scalar(o) else power(o, self)
 
     def __round__(self, ndigits=None):
         if ndigits is not None:
@@ -813,6 +813,12 @@ class SymNum:
 
     def item(self):
         return self
+
+
+def _not_scalar(o):
+    import numpy as _np
+
+    return not isinstance(o, (SymNum, SymBool, int, float, Fraction, bool, _np.generic))
 
 
 def concrete_value(x):
